@@ -870,6 +870,8 @@ def construct(I, st, ci, args, kwargs, node):
                 v = given[f]
             elif d is not None:
                 v = eval_dataclass_default(I, st, ci, d, fty)
+                if v is None:
+                    continue        # field(init=False): set by __post_init__
             else:
                 raise Unsupported("missing dataclass field %s" % f)
             I.write_field(st, o, f, fty, adapt(I, st, v, fty))
@@ -883,6 +885,8 @@ def construct(I, st, ci, args, kwargs, node):
 def eval_dataclass_default(I, st, ci, d, fty):
     if isinstance(d, ast.Call) and ast.unparse(d.func).endswith("field"):
         for kw in d.keywords:
+            if kw.arg == "init" and isinstance(kw.value, ast.Constant) and kw.value.value is False:
+                return None
             if kw.arg == "default_factory":
                 nm = ast.unparse(kw.value)
                 base = strip_opt(fty)
